@@ -18,7 +18,7 @@ package storage
 //@   && forall(i, (0 <= i && i + 1 < len(s.parts)) ==> s.parts[i+1].offset == s.parts[i].offset + s.parts[i].size)
 
 //@ func newFileRAM
-//@   props C17
+//@   props C05 C17
 //@   ensures result != nil && is(result, *fileRAM) && fresh(result) && ramInv(result.(*fileRAM)) && !result.(*fileRAM).finalized
 //@ end
 
@@ -33,7 +33,7 @@ package storage
 //@ end
 
 //@ func fileRAM.Finalize
-//@   props C17
+//@   props C05 C17
 //@   invariant ramInv(s)
 //@   modifies s.finalized, s.finalSize
 //@   ensures s.finalized
@@ -47,12 +47,12 @@ package storage
 //@ end
 
 //@ func fileRAM.Size
-//@   props C17
+//@   props C05 C17
 //@   ensures result == s.finalSize
 //@ end
 
 //@ func fileRAM.Remove
-//@   props C17 C07
+//@   props C05 C07 C17
 //@ end
 
 //@ func partRAM.Writer
@@ -104,17 +104,17 @@ package storage
 //@ end
 
 //@ func fileDisk.Size
-//@   props C17
+//@   props C05 C17
 //@   ensures result == s.finalSize
 //@ end
 
 //@ func fileDisk.Remove
-//@   props C17 C07
+//@   props C05 C07 C17 C18
 //@   ensures calls("os.Remove") == 1 && callarg("os.Remove", 0, 0) == s.fpath
 //@ end
 
 //@ func partDisk.Writer
-//@   props C17
+//@   props C05 C17
 //@   requires p.s != nil
 //@   ensures result != nil
 //@ end
@@ -150,7 +150,7 @@ package storage
 //@   && (is(f, *fileDisk) ==> f.(*fileDisk).f != nil) && (is(f, *fileRAM) ==> !f.(*fileRAM).finalized)
 
 //@ func newFileDisk
-//@   props C17
+//@   props C05 C17
 //@   ensures result1 == nil ==> (result0 != nil && is(result0, *fileDisk) && fresh(result0) && diskInv(result0.(*fileDisk)) && result0.(*fileDisk).f != nil && result0.(*fileDisk).fpath == fpath)
 //@ end
 
